@@ -932,7 +932,7 @@ func (g *gen) rollout(i int, seed uint64, fair bool) *scenario {
 		healthy.Data["observedGenerationAsString"] = true // legal in a schemaless custom resource; must be ignored
 		sc.Features = append(sc.Features, "observed-generation-not-integer")
 	}
-	if len(kid.Checks) == 0 && r.Bool() {
+	if len(kid.Checks) == 0 && !secondRolling && r.Bool() {
 		// a kind without status checks whose objects report nothing at all (ConfigMap-like)
 		healthy.Data["bare"] = true
 		sc.Features = append(sc.Features, "children-without-status")
@@ -1441,6 +1441,17 @@ func generateScenarios(prop string, seed uint64, n int, adv bool) []*scenario {
 					}
 				}
 			}
+			if len(sc.Ctl.FieldPaths) == 1 && len(sc.Rounds) > 2 && r.Bool() {
+				// a field outside the revision history is edited (the generation moves, the revisioned fields do
+				// not) and the next sync runs on a ControllerRevision lister that has not seen the last sync's writes
+				e := sc.parentRef()
+				spec := runtime.DeepCopyJSON(sc.Parent["spec"].(J))
+				spec["image"], spec["note"] = "v2", "generation-bump"
+				e.Op, e.Data = "edit", J{"spec": spec}
+				sc.Rounds[1].PreOps = append(sc.Rounds[1].PreOps, e)
+				sc.Rounds[1].StaleRevisions = true
+				sc.Features = append(sc.Features, "stale-revision-lister-after-generation-bump")
+			}
 			// room to recover
 			healthy := sc.Rounds[len(sc.Rounds)-1].PreOps
 			for x := 0; x < 4; x++ {
@@ -1562,7 +1573,11 @@ func generateScenarios(prop string, seed uint64, n int, adv bool) []*scenario {
 			case 3:
 				sc.Hook.Status, sc.Hook.OmitStatus, sc.Hook.NullStatus = nil, true, false // no status at all
 				if r.Bool() {
-					sc.Hook.EmptyForImage = "v1" // the older revision's answer no longer lists the children it still claims
+					// after the warm-up (which creates the children from the v1 parent) the hook answers "no
+					// children" for the v1 view: the older revision's answer omits the children it still claims
+					h2 := sc.Hook
+					h2.EmptyForImage = "v1"
+					sc.Hook2 = &h2
 					sc.Features = append(sc.Features, "old-revision-answer-omits-claimed-children")
 				}
 			default:
